@@ -83,6 +83,22 @@ CHECKS = {
         note='Trusted: z3; codec model; the probe battery stands for any later call; hidden state outside '
              'the listed vector would go unnoticed unless the tripwire reports a new module-level object.',
         design='3 C12'),
+    'C13': dict(
+        text='(1) Regular-language lemmas, unbounded in the length of the value: for 57 CSS 2.1 properties whose '
+             'grammar is a keyword list or a single length / percentage / number / integer / colour / URI, the '
+             'live macro-expanded validation pattern is translated to a z3 regular expression and compared, in '
+             'both directions, with an independently typed CSS 2.1 grammar; unsat = the verdicts agree on every '
+             'value; each witness is replayed through the real profile, classified, excluded by a regular '
+             'constraint and the query repeated so that different disagreements are still found. (2)-(4) bounded '
+             'symbolic model checking of the real code: lookup logic with symbolic verdict bits and symbolic '
+             'property names; 15 value skeletons with every letter in symbolic case and symbolic gap fillers '
+             '(verdict, value handed to validation, provenance, validate on/off, round trip); sheet/rule/block '
+             'aggregation with symbolic per-declaration verdicts.',
+        note='Trusted: z3 (regex theory and arithmetic); rx/translate.py (sre parse tree to z3 Re, alphabet '
+             '0..0x2FFFF) and sx/symre.py; ref/css21_props.py typed from CSS 2.1 Appendix F and 4.3.',
+        technique='SMT regular-language equivalence (z3 regex theory) of the live validation patterns against a '
+                  'reference grammar, plus dynamic symbolic execution of the lookup / aggregation / spelling code',
+        design='3 C13'),
 }
 
 NA_REASON = 'check not built yet (build in progress; DESIGN.md section 3 describes the planned harness)'
